@@ -1047,6 +1047,7 @@ def _interval_props(ctx) -> None:
     ctx.ob("INTERVAL.neg", "Interval.__neg__", len(r) == 1 and nun(r[0].value) == "self.__class__(self.end, self.start, self._absolute)",
            f"returns {[nun(x.value) for x in r]}; the reversed interval swaps the endpoints", m.loc(m.func("Interval.__neg__")))
     init = m.func("Interval.__init__")
+    init_tabulate(ctx)
     d = [n for n in core.walk_fn(init) if isinstance(n, (ast.Assign, ast.AnnAssign)) and "self._delta" in un(n)]
     ok = len(d) == 1 and nun(d[0].value) == "precise_diff(_start, _end)"
     ctx.ob("INTERVAL.delta", "Interval.__init__/_delta", ok, f"`{un(d[0]) if d else None}`; must be precise_diff(_start, _end)", m.loc(init))
@@ -1114,6 +1115,100 @@ def _py_utc_shift(ctx, m: core.Mod, fn: ast.FunctionDef) -> None:
     flag = [n for n in core.walk_fn(fn) if isinstance(n, ast.Assign) and nun(n.targets[0]) == "in_same_tz" and not core.is_const(n.value, False)]
     ok = len(flag) == 1 and nun(flag[0].value) in ("tz1 == tz2 and tz1 is not None", "tz1 is not None and tz1 == tz2")
     ctx.ob("UTCSHIFT.when", "py:precise_diff/in_same_tz", ok, f"in_same_tz = {[nun(x.value) for x in flag]}; same zone means equal, known zone names", m.loc(fn))
+
+
+def init_tabulate(ctx) -> bool | None:
+    """INIT.tabulated: Interval.__init__ run by the checker's interpreter on pairs of end points - pendulum DateTime / Date stubs and
+    standard-library datetimes / dates (turned into pendulum values through pendulum.instance / pendulum.date), aware in one zone (both
+    passes of a repeated hour), in two zones, naive - in both orders, absolute or not; precise_diff records what it is handed.  Expected:
+    `_invert` says whether the first end point is the later one; an absolute interval has them swapped then (start <= end), another keeps
+    them as given; `_absolute` as given; and the breakdown is precise_diff(<native copy of start>, <native copy of end>) - standard-library
+    values with every field and the very tzinfo of the end points the interval ends up with."""
+    import datetime as _dt
+    from ..rules import minieval
+    from ..rules.minieval import ClassStub, Obj, Stub
+    m = pmod("interval")
+    fn = m.func("Interval.__init__")
+    funcs = {st.name: st for st in m.top() if isinstance(st, ast.FunctionDef)}
+
+    class _Z(_dt.tzinfo):           # the clocks go back from 03:00 (+02:00) to 02:00 (+01:00) on 2021-10-31
+        def utcoffset(self, x):
+            w = x.replace(tzinfo=None, fold=0)
+            lo, hi = _dt.datetime(2021, 10, 31, 2), _dt.datetime(2021, 10, 31, 3)
+            return _dt.timedelta(hours=2 if w < lo or (w < hi and x.fold == 0) else 1)
+
+        def dst(self, x):
+            return _dt.timedelta(0)
+
+        def fromutc(self, x):
+            u = x.replace(tzinfo=None)
+            if u < _dt.datetime(2021, 10, 31, 0):
+                return (u + _dt.timedelta(hours=2)).replace(tzinfo=self)
+            w = u + _dt.timedelta(hours=1)
+            return w.replace(tzinfo=self, fold=1 if w < _dt.datetime(2021, 10, 31, 3) else 0)
+    z, east = _Z(), _dt.timezone(_dt.timedelta(hours=9))
+    D = _dt.datetime
+    groups = [[D(2021, 10, 31, 2, 30, tzinfo=z), D(2021, 10, 31, 2, 30, tzinfo=z, fold=1), D(2021, 10, 31, 2, 10, tzinfo=z, fold=1), D(2021, 10, 31, 1, 0, 0, 5, tzinfo=z), D(2021, 10, 31, 9, 30, tzinfo=east),
+               D(2021, 1, 31, 0, 0, tzinfo=east)],
+              [D(2021, 1, 31, 12, 0), D(2021, 3, 1, 0, 0, 0, 1), D(2020, 2, 29, 23, 59, 59, 999999)],
+              [_dt.date(2021, 1, 31), _dt.date(2020, 2, 29), _dt.date(2021, 3, 1)]]
+
+    def inst(x):
+        return x.replace(tzinfo=None) - x.utcoffset() if isinstance(x, _dt.datetime) and x.tzinfo is not None else x
+
+    def pend(x, via=None):
+        if isinstance(x, _dt.datetime):
+            return Stub(_pend="DateTime", _native=x, _via=via, _types=(_dt.datetime,), _eqkey=inst(x), year=x.year, month=x.month, day=x.day, hour=x.hour, minute=x.minute, second=x.second,
+                        microsecond=x.microsecond, tzinfo=x.tzinfo, tz=x.tzinfo, timezone=x.tzinfo, fold=x.fold, utcoffset=x.utcoffset, astimezone=x.astimezone)
+        return Stub(_pend="Date", _native=x, _via=via, _types=(_dt.date,), _eqkey=x, year=x.year, month=x.month, day=x.day)
+    bad, n = [], 0
+    try:
+        for grp in groups:
+            for a0 in grp:
+                for b0 in grp:
+                    for absolute in (False, True):
+                        for kind in ("pendulum", "native"):
+                            a, b = (pend(a0), pend(b0)) if kind == "pendulum" else (a0, b0)
+                            made = []
+                            glob = {"datetime": _dt.datetime, "date": _dt.date, "timedelta": _dt.timedelta, "timezone": _dt.timezone, "cast": lambda t, v: v,
+                                    "precise_diff": lambda x, y: (made.append((x, y)), Stub(_pd=len(made)))[1],
+                                    "pendulum": Stub(DateTime=ClassStub(_new=None, _isa=lambda v: getattr(v, "_pend", None) == "DateTime"),
+                                                     Date=ClassStub(_new=None, _isa=lambda v: getattr(v, "_pend", None) in ("Date", "DateTime")),
+                                                     instance=lambda v, *a_, **k_: pend(v, "instance"), date=lambda y, mo, d_: pend(_dt.date(y, mo, d_), "date")),
+                                    "ValueError": ValueError, "TypeError": TypeError}
+                            me = Obj(_methods={}, _props=set(), _natives={}, _ctor=None, _super_natives={"__init__": lambda *a_, **k_: None})
+                            minieval.call(fn, [me, a, b, absolute], {}, {**funcs, "$globals": glob})
+                            n += 1
+                            f = vars(me)
+                            label = f"Interval({'pendulum ' if kind == 'pendulum' else ''}{a0!r}, {'pendulum ' if kind == 'pendulum' else ''}{b0!r}{', absolute=True' if absolute else ''})"
+                            later = inst(a0) > inst(b0)
+                            s0, e0 = (b0, a0) if (later and absolute) else (a0, b0)
+                            errs = []
+                            if bool(f.get("_invert")) != later:
+                                errs.append(f"_invert={f.get('_invert')!r} although the first end point is {'' if later else 'not '}the later one")
+                            if f.get("_absolute") is not absolute:
+                                errs.append(f"_absolute={f.get('_absolute')!r}")
+                            for nm, want in (("_start", s0), ("_end", e0)):
+                                v = f.get(nm)
+                                if getattr(v, "_pend", None) is None or v._native != want or (isinstance(want, _dt.datetime) and (v._native.tzinfo is not want.tzinfo or v._native.fold != want.fold)):
+                                    errs.append(f"{nm} is {getattr(v, '_native', v)!r} (expected the pendulum value of {want!r})")
+                            if len(made) != 1 or getattr(f.get("_delta"), "_pd", None) != 1:
+                                raise core.Unsupported(f"{label}: _delta is not the result of one precise_diff(...) call")
+                            for which, got, want in (("first", made[0][0], s0), ("second", made[0][1], e0)):
+                                g_ = getattr(got, "_native", got)          # (a pendulum value is a datetime too: handed on as it is, it carries the same fields)
+                                same = type(g_) is type(want) and g_ == want and (not isinstance(want, _dt.datetime) or (g_.tzinfo is want.tzinfo and g_.replace(tzinfo=None) == want.replace(tzinfo=None)
+                                                                                                                     and (g_.fold == want.fold or type(got) is _dt.datetime)))
+                                if not same:
+                                    errs.append(f"precise_diff receives {g_!r} as its {which} argument (expected {want!r} with all its fields and its tzinfo)")
+                            bad += [f"{label}: {e}" for e in errs[:1]]
+    except (core.Unsupported, KeyError, TypeError, AttributeError, ValueError, IndexError, RecursionError, minieval.Raised) as e:
+        ctx.unverified("INIT.tabulated", "Interval.__init__", f"outside the checker's interpreter: {type(e).__name__}: {str(e)[:160]}", m.loc(fn))
+        return None
+    ctx.ob("INIT.tabulated", "Interval.__init__", not bad, f"{n} (end points, absolute) cases: " + (f"wrong: {bad[:3]}" if bad else
+           "_invert, the swap of an absolute interval, and precise_diff of the native copies of the end points the interval keeps"), m.loc(fn))
+    if not bad:
+        ctx.established(("INTERVAL.delta", "STATE-COMPLETE", "RECON"), "Interval.__init__", "INIT.tabulated")
+    return not bad
 
 
 def _memo_keys(ctx) -> None:
